@@ -48,10 +48,14 @@ def shards(tier, seed):
         for sc in scen:
             out.append({"kind": kind, "scenario": sc, "bound": 2 if tier == "quick" else 3,
                         "budget": 40 if tier == "quick" else 300})
+        # the same evaluations arriving through the web service (a threaded server calls serve() per request)
+        for sc in (["query_and_extension"] if tier == "quick" else ["query_and_extension", "shared_prefix", "link_subquery", "bytes"]):
+            out.append({"kind": kind, "scenario": sc, "via": "serve", "bound": 2 if tier == "quick" else 3,
+                        "budget": 25 if tier == "quick" else 150})
     return out
 
 
-def run_scenario(env, kind, queries, scratch, bound, budget, viol, stats, only_schedule=None):
+def run_scenario(env, kind, queries, scratch, bound, budget, viol, stats, only_schedule=None, via="evaluate"):
     import hashlib
     import os
     import shutil
@@ -59,7 +63,23 @@ def run_scenario(env, kind, queries, scratch, bound, budget, viol, stats, only_s
     from liquer.context import Context
     from lqv import cachecfg, evalcache as E, sched, crash, vocab, refinterp as R
 
-    refs = [env.reference(q) for q in queries]
+    client = None
+    if via == "serve":
+        from urllib.parse import quote
+        from liquer.cache import NoCache
+        from lqv.checks.c20 import make_app
+
+        client = make_app().test_client()
+
+        def served(q):
+            r = client.get("/liquer/q/" + quote(q))
+            return {"ok": 200 <= r.status_code < 300, "value": r.data, "volatile": False, "vars": {}, "filename": None,
+                    "extension": None, "msg": "HTTP %d" % r.status_code}
+
+        set_cache(NoCache())
+        refs = [served(q) for q in queries]
+    else:
+        refs = [env.reference(q) for q in queries]
     file_backed = kind in ("file", "xor", "fernet", "store_file_nested", "store_file_flat", "memory+file")
     ref = [None]
     interleavings = set()
@@ -82,6 +102,9 @@ def run_scenario(env, kind, queries, scratch, bound, budget, viol, stats, only_s
             crash._S["active"] = True
 
         def mk(q):
+            if via == "serve":
+                return lambda: served(q)
+
             def f():
                 try:
                     st = Context().evaluate(q)
@@ -127,7 +150,7 @@ def run_scenario(env, kind, queries, scratch, bound, budget, viol, stats, only_s
             stats["nontrivial"].add("%s/%s/%s" % (kind, stats["scenario"], h))
         stats["max_preemptions"] = max(stats.get("max_preemptions", 0), pre)
         stats["yield_points"] = stats.get("yield_points", 0) + len(s.trace)
-        w = {"kind": kind, "scenario": stats["scenario"], "schedule": chosen}
+        w = {"kind": kind, "scenario": stats["scenario"], "schedule": chosen, "via": via}
         if s.stuck:
             stats["stuck"] = stats.get("stuck", 0) + 1
             continue
@@ -165,10 +188,12 @@ def run_shard(spec):
     if "replay" in spec:
         w = spec["replay"]
         stats["scenario"] = w["scenario"]
-        run_scenario(env, w["kind"], SCENARIOS[w["scenario"]], scratch, 0, 1, viol, stats, only_schedule=w["schedule"])
+        run_scenario(env, w["kind"], SCENARIOS[w["scenario"]], scratch, 0, 1, viol, stats, only_schedule=w["schedule"], via=w.get("via", "evaluate"))
     else:
         stats["scenario"] = spec["scenario"]
-        run_scenario(env, spec["kind"], SCENARIOS[spec["scenario"]], scratch, spec["bound"], spec["budget"], viol, stats)
+        run_scenario(env, spec["kind"], SCENARIOS[spec["scenario"]], scratch, spec["bound"], spec["budget"], viol, stats, via=spec.get("via", "evaluate"))
+        if spec.get("via") == "serve":
+            env.count("served_runs", stats["evaluations"])
     counters = dict(env.counters)
     counters["yield_points"] = stats.get("yield_points", 0)
     counters["stuck_runs"] = stats.get("stuck", 0)
@@ -196,6 +221,8 @@ def finalize(m, tier, seed):
         inc.append("%d runs hit the watchdog" % m["counters"]["stuck_runs"])
     if not m["counters"].get("served_keys"):
         inc.append("quiescent inspection never saw a served key")
+    if not m["counters"].get("served_runs"):
+        inc.append("no scenario was driven through the web service")
     if m["maxima"].get("preemptions", 0) < 1:
         inc.append("no schedule with a preemption was executed")
     return {"inconclusive": inc, "distinct_interleavings": len(m["sets"].get("interleavings", []))}
